@@ -1,6 +1,7 @@
 package rules
 
 import (
+	"go/token"
 	"strings"
 
 	"golang.org/x/tools/go/ssa"
@@ -178,6 +179,50 @@ func runC44(p *core.Prog, r *core.Report) {
 	// ---------------- R6 what is listed can be removed
 	r6 := r.Rule("C44.R6", "lister and deleter agree: entries the metabase refuses to delete while keeping their garbage mark (and reports as success) do not take slots of the garbage batch", 2)
 	listerAgreesWithDeleter(p, r, r6)
+	// ---------------- R7 a mark without an object still goes away
+	r7 := r.Rule("C44.R7", "deleteMetadata removes the garbage mark also of an id that has no object record here (tombstones of objects this shard never held leave such marks): the mark's removal is reachable on the 'no object record' path — the lister counts such marks as removable (R6), so a mark that is never removed fills every batch", 1)
+	if dm := p.Func(mb + "deleteMetadata"); dm == nil {
+		r.Fatalf("C44.R7: deleteMetadata not found")
+	} else {
+		var first *ssa.Call
+		for _, b := range dm.Blocks {
+			for _, in := range b.Instrs {
+				if c, ok := in.(*ssa.Call); ok && core.CalleeName(c) == "bytes.Equal" && first == nil {
+					first = c
+				}
+			}
+			if first != nil {
+				break
+			}
+		}
+		stopEdge := map[[2]*ssa.BasicBlock]bool{}
+		if first != nil && first.Referrers() != nil {
+			for _, ref := range *first.Referrers() {
+				if iff, ok := ref.(*ssa.If); ok {
+					stopEdge[[2]*ssa.BasicBlock{iff.Block(), iff.Block().Succs[0]}] = true
+				}
+				if u, ok := ref.(*ssa.UnOp); ok && u.Op == token.NOT && u.Referrers() != nil {
+					for _, r2 := range *u.Referrers() {
+						if iff, isIf := r2.(*ssa.If); isIf {
+							stopEdge[[2]*ssa.BasicBlock{iff.Block(), iff.Block().Succs[1]}] = true
+						}
+					}
+				}
+			}
+		}
+		ok := false
+		if len(stopEdge) > 0 {
+			for _, cs := range core.CallSites([]*ssa.Function{dm}, func(s core.Site) bool { return s.Name == "(*github.com/nspcc-dev/bbolt.Cursor).Delete" }) {
+				cb := cs.Call.(ssa.Instruction).Block()
+				if cs.Fn == dm && (cb == dm.Blocks[0] || reachesAvoiding(dm.Blocks[0], cb, nil, stopEdge)) {
+					ok = true
+				}
+			}
+		}
+		r7.Check(ok, core.FuncName(dm)+"#mark-of-an-absent-object", p.Pos(dm.Pos()), "a key removal is reachable without an object record",
+			"deleteMetadata removes nothing for an id that has no object record: the garbage mark a tombstone left for an object this shard never held stays for ever, is listed as removable on every pass and, once a batch-full of such marks sorts first, starves all other garbage")
+	}
+	r.Explain += " (R7) in deleteMetadata a cursor Delete (the garbage mark's) is reachable from the entry without passing the 'object record found' edge of the first key comparison."
 }
 
 // phyMarkerLookup: c is getObjAttribute(..., FilterPhysical).
